@@ -45,7 +45,7 @@ def dfa_simulate_word(D: DFA, word: str) -> List[Tuple[State, str]]:
     for a in word:
         k = k + 1
         q = delta[q, a]
-        result.append((q, word[:-k]))
+        result.append((q, word[k:]))
     return result
 
 
